@@ -19,5 +19,10 @@ def tasks(ctx):
                         [LemmaTask("lemma:controller", lambda c, e, ce: wr.controller_lemma(c, e, ce, two=False), ["memory.newMBC"])])
 
 
+# components whose representation invariants the lemmas above assume in every reachable state (engine/closure.py adds
+# the preservation obligations of all their functions)
+tasks.invariant_packages = ('memory',)
+
+
 def run(tier, seed):
     return run_property("C08", tasks, "proof", tier, seed, BASE_ASSUME, TRUSTED)
